@@ -66,6 +66,19 @@ struct Sel {
     order: Order,
     last: u32,
     pad: String,
+    /// a 128-bit key beside the marker (addresses and ids kept as u128 are common selectors); for two
+    /// items in three it lies beyond 64 bits
+    #[serde(default)]
+    big: u128,
+}
+
+fn big_of(v: u32) -> u128 {
+    ((v % 3) as u128) * (1u128 << 64) + ((v % 3) as u128) * 12345678901234567890u128 + v as u128
+}
+
+/// A selector as it goes into an event (serde_json's Value cannot hold integers beyond 64 bits).
+fn sel_json(s: &Sel) -> serde_json::Value {
+    json!({"order": format!("{:?}", s.order).to_lowercase(), "last": s.last, "pad": s.pad, "big": s.big.to_string()})
 }
 
 #[derive(Serialize, JsonSchema, Clone, Debug)]
@@ -105,7 +118,7 @@ async fn ep_items_handler(
         json!({"n": nonce, "which": which, "efflimit": limit,
                "order": format!("{:?}", order).to_lowercase(),
                "after": after.map(|x| x as i64).unwrap_or(-1),
-               "sel": match &pag.page { WhichPage::Next(s) => serde_json::to_value(s).unwrap(), _ => json!({}) }}),
+               "sel": match &pag.page { WhichPage::Next(s) => sel_json(s), _ => json!({}) }}),
     );
     let items: Vec<Item> = match order {
         Order::Asc => {
@@ -121,6 +134,7 @@ async fn ep_items_handler(
     Ok(HttpResponseOk(ResultsPage::new(items, &scan, |item: &Item, s: &Scan| Sel {
         order: s.order.unwrap(),
         last: item.v,
+        big: big_of(item.v),
         pad: format!("{}{}", label(item.v), pad),
     })?))
 }
@@ -151,15 +165,14 @@ fn classify(tok: &str) -> (&'static str, Option<Sel>) {
         Some(Value::String(_)) => return ("wrong_version", None),
         _ => return ("wrong_shape", None),
     }
-    match obj.get("page_start").map(|p| serde_json::from_value::<Sel>(p.clone())) {
-        Some(Ok(sel)) => {
-            // duplicate keys and the like make serde reject what Value accepted
-            match serde_json::from_slice::<StrictTok>(&bytes) {
-                Ok(_) => ("valid", Some(sel)),
-                Err(_) => ("wrong_shape", None),
-            }
-        }
-        _ => ("wrong_shape", None),
+    // the selector is parsed from the bytes themselves (a detour through serde_json::Value would turn
+    // integers beyond 64 bits into floats); duplicate keys and the like are refused by the same parse
+    if !obj.contains_key("page_start") {
+        return ("wrong_shape", None);
+    }
+    match serde_json::from_slice::<StrictTok>(&bytes) {
+        Ok(t) => ("valid", Some(t.page_start)),
+        Err(_) => ("wrong_shape", None),
     }
 }
 #[derive(Deserialize)]
@@ -286,8 +299,9 @@ fn main() {
             for _ in 0..reps {
                 // --- a token of the class ---
                 let padlen = r.gen_range(0..12);
+                let last = r.gen_range(1..500);
                 let sel = Sel { order: if r.gen_bool(0.5) { Order::Asc } else { Order::Desc },
-                    last: r.gen_range(1..500), pad: random_pad(&mut r, padlen) };
+                    last, big: big_of(last), pad: random_pad(&mut r, padlen) };
                 let issued = {
                     let page = ResultsPage::new(vec![Item { v: sel.last }], &Scan { order: Some(sel.order), min: None },
                         |_: &Item, _: &Scan| sel.clone());
@@ -355,7 +369,7 @@ fn main() {
                 emit("reset", json!({"kind": "case", "n": nn}));
                 let resp = get(addr, &format!("/items?{}", qs), &nn).await;
                 emit("case", json!({"via": "live", "tc": tc, "lc": lc, "oc": oc, "qs": qs, "status": resp.status,
-                    "want_sel": want_sel.as_ref().map(|s| serde_json::to_value(s).unwrap()).unwrap_or(json!({})), "nn": nn,
+                    "want_sel": want_sel.as_ref().map(sel_json).unwrap_or(json!({})), "nn": nn,
                     "limit_val": limit_val, "wellformed": resp.wellformed}));
             }
         }
@@ -371,7 +385,8 @@ fn main() {
             }
             // pads chosen so that encoded lengths straddle 512
             let padlen = if i % 3 == 0 { r.gen_range(300..340) } else { r.gen_range(0..420) };
-            let sel = Sel { order: Order::Desc, last: r.gen_range(0..u32::MAX),
+            let last = r.gen_range(0..u32::MAX);
+            let sel = Sel { order: Order::Desc, last, big: big_of(last),
                 pad: if i % 2 == 0 { "q".repeat(padlen) } else { random_pad(&mut r, padlen / 3) } };
             let encoded_len = b64(format!("{{\"v\":\"v1\",\"page_start\":{}}}", serde_json::to_string(&sel).unwrap()).as_bytes()).len();
             let page = ResultsPage::new(vec![Item { v: 1 }], &Scan { order: None, min: None }, |_: &Item, _: &Scan| sel.clone());
